@@ -638,7 +638,8 @@ fn feed_replier(g: &mut World, sink: usize) {
                     }
                     ReplyMode::UnknownTag => {
                         if let Some(h) = headers.as_mut() {
-                            h.insert("cid".into(), "77".into());
+                            // a well-formed tag that no router hands out
+                            h.insert("cid".into(), "18446744073709551557".into());
                         }
                     }
                     ReplyMode::BadTag => {
